@@ -40,6 +40,36 @@
 
 #define CRLF "\r\n"
 
+/*
+ * A header (or the end of the header block) that shows up in the chunk of
+ * the request line means that the line was not terminated by CRLF. The
+ * handler's callbacks are not installed yet, so refuse the request.
+ */
+static int on_early_header_field(http_parser *parser, const char *at, size_t length)
+{
+	(void)at;
+	(void)length;
+	struct http_connection *connection = container_of(parser, struct http_connection, parser);
+	connection->status_code = HTTP_BAD_REQUEST;
+	return -1;
+}
+
+static int on_early_headers_complete(http_parser *parser)
+{
+	struct http_connection *connection = container_of(parser, struct http_connection, parser);
+	connection->status_code = HTTP_BAD_REQUEST;
+	return -1;
+}
+
+static void install_handler_callbacks(struct http_connection *connection, const struct url_handler *handler)
+{
+	connection->parser_settings.on_header_field = handler->on_header_field;
+	connection->parser_settings.on_header_value = handler->on_header_value;
+	connection->parser_settings.on_headers_complete = handler->on_headers_complete;
+	connection->parser_settings.on_body = handler->on_body;
+	connection->parser_settings.on_message_complete = handler->on_message_complete;
+}
+
 static int on_url(http_parser *parser, const char *at, size_t length)
 {
 	struct http_connection *connection = container_of(parser, struct http_connection, parser);
@@ -63,17 +93,18 @@ static int on_url(http_parser *parser, const char *at, size_t length)
 			connection->status_code = HTTP_NOT_FOUND;
 			return -1;
 		}
-		/*
-		 * The handler's object is created in read_start_line(), after
-		 * the complete request line was parsed successfully.
-		 */
-		connection->handler = handler;
-
-		connection->parser_settings.on_header_field = handler->on_header_field;
-		connection->parser_settings.on_header_value = handler->on_header_value;
-		connection->parser_settings.on_headers_complete = handler->on_headers_complete;
-		connection->parser_settings.on_body = handler->on_body;
-		connection->parser_settings.on_message_complete = handler->on_message_complete;
+		if (handler->create != NULL) {
+			/*
+			 * The handler's object is created and its callbacks are
+			 * installed in read_start_line(), after the complete
+			 * request line was parsed successfully.
+			 */
+			connection->handler = handler;
+			connection->parser_settings.on_header_field = on_early_header_field;
+			connection->parser_settings.on_headers_complete = on_early_headers_complete;
+		} else {
+			install_handler_callbacks(connection, handler);
+		}
 	} else {
 		connection->status_code = HTTP_BAD_REQUEST;
 		return -1;
@@ -138,14 +169,17 @@ static enum bs_read_callback_return read_start_line(void *context, uint8_t *buf,
 	}
 
 	const struct url_handler *handler = connection->handler;
-	if ((handler != NULL) && (handler->create != NULL)) {
+	if (handler != NULL) {
 		connection->handler = NULL;
-		if (unlikely(handler->create(connection) < 0)) {
+		if ((handler->create != NULL) && unlikely(handler->create(connection) < 0)) {
 			connection->status_code = HTTP_INTERNAL_SERVER_ERROR;
 			send_http_error_response(connection);
 			free_connection(connection);
 			return BS_CLOSED;
 		}
+
+		/* The callbacks work on the object create() made, so they must not run before. */
+		install_handler_callbacks(connection, handler);
 	}
 	return BS_OK;
 }
